@@ -203,31 +203,30 @@ def check_mtl(case, ctx):
             if not err <= TOL[dname] * scale:
                 vio = ("shared_differs_from_autograd", {"leaf": r, "torchjd": tolist(g1), "autograd": tolist(a2), "weights": w})
                 break
-    # task parameters: loss_i.backward(inputs=task_params_i) on a second twin, summed over listing tasks by .grad accumulation
+    # task parameters: what loss_i.backward(inputs=task_params_i) gives, summed over the listing tasks.  The per-task
+    # gradients are taken with torch.autograd.grad and summed OUT OF PLACE: torch's own .grad accumulation can deposit
+    # tensors that share storage (e.g. two 0-d parameters fed by one expanded cotangent), which a later in-place
+    # accumulation corrupts - an artefact of the reference, not of torchjd (observed: 2.44 instead of 1.0).
     if vio is None:
+        ref = {}
         for i, refs in enumerate(task_refs):
             if refs:
-                tw2.losses[i].backward(inputs=[C02.leaf_of(tw2, r) for r in refs], retain_graph=True)
-        seen = set()
-        for refs in task_refs:
-            for r in refs:
-                if tuple(r) in seen:
-                    continue
-                seen.add(tuple(r))
-                g1 = C02.leaf_of(b, r).grad
-                g2 = C02.leaf_of(tw2, r).grad
-                a2 = torch.zeros_like(C02.leaf_of(tw2, r)) if g2 is None else g2
-                if g1 is None:
-                    vio = ("task_grad_missing", {"leaf": r})
-                    break
-                scale = aj.max_abs(a2) + 1.0
-                err = aj.max_abs(g1 - a2)
-                ctx.maximum(f"mtl_task_vs_autograd_{dname}", err / scale)
-                ctx.count("mtl_task_compared")
-                if not err <= TOL[dname] * scale:
-                    vio = ("task_differs_from_autograd", {"leaf": r, "torchjd": tolist(g1), "autograd": tolist(a2)})
-                    break
-            if vio:
+                gs = torch.autograd.grad(tw2.losses[i], [C02.leaf_of(tw2, r) for r in refs], retain_graph=True, allow_unused=True)
+                for r, g in zip(refs, gs):
+                    leaf = C02.leaf_of(tw2, r)
+                    g = torch.zeros_like(leaf) if g is None else g.detach().clone()
+                    ref[tuple(r)] = g if tuple(r) not in ref else ref[tuple(r)] + g
+        for key, a2 in ref.items():
+            g1 = C02.leaf_of(b, list(key)).grad
+            if g1 is None:
+                vio = ("task_grad_missing", {"leaf": list(key)})
+                break
+            scale = aj.max_abs(a2) + 1.0
+            err = aj.max_abs(g1 - a2)
+            ctx.maximum(f"mtl_task_vs_autograd_{dname}", err / scale)
+            ctx.count("mtl_task_compared")
+            if not err <= TOL[dname] * scale:
+                vio = ("task_differs_from_autograd", {"leaf": list(key), "torchjd": tolist(g1), "autograd": tolist(a2)})
                 break
     if vio:
         ctx.violation(vio[0], C02._slim(case), vio[1])
